@@ -605,9 +605,17 @@ var plans = func() []nrun.Plan {
 }()
 
 func TestC04(t *testing.T) {
+	quick, thor := 75*time.Second, 18*time.Minute
+	// Development knob for a loaded machine: C04_TIME_SCALE=4 multiplies both budgets.
+	if s := os.Getenv("C04_TIME_SCALE"); s != "" {
+		var f float64
+		if _, err := fmt.Sscanf(s, "%g", &f); err == nil && f > 0 {
+			quick, thor = time.Duration(float64(quick)*f), time.Duration(float64(thor)*f)
+		}
+	}
 	nrun.Main(t, &nrun.Check{
 		ID: "C04", TestName: "TestC04", Plans: plans,
-		QuickTime: 75 * time.Second, ThorTime: 18 * time.Minute,
+		QuickTime: quick, ThorTime: thor,
 		Rule:   "engine N: TODO",
 		Assume: []string{"kfake is the broker"},
 	})
